@@ -18,6 +18,7 @@ import (
 	"fmt"
 	"os"
 	"sort"
+	"time"
 
 	log "github.com/sirupsen/logrus"
 
@@ -153,6 +154,15 @@ func NewNodeOnDB(dir string, db dbm.DB) (*Node, error) {
 
 func (n *Node) Close() { n.DB.Close() }
 
+// CloseSettled waits until casper's background loop has worked off what the delivered blocks queued
+// (it reads the store; closing the database under it makes the goroutine panic) and closes the node.
+func (n *Node) CloseSettled() {
+	n.Chain.VerifCasper().VerifSettle()
+	n.Chain.VerifCasper().VerifSettle()
+	time.Sleep(5 * time.Millisecond)
+	n.DB.Close()
+}
+
 // CloneBlock deep-copies a block (the node mutates block.SupLinks while processing).
 func CloneBlock(b *types.Block) *types.Block {
 	bs, err := b.MarshalText()
@@ -179,10 +189,10 @@ type Out struct {
 	Pos int
 }
 
-func (o Out) ID() bc.Hash { return *o.Tx.ResultIds[o.Pos] }
-func (o Out) Amount() uint64 { return o.Tx.Outputs[o.Pos].Amount }
+func (o Out) ID() bc.Hash       { return *o.Tx.ResultIds[o.Pos] }
+func (o Out) Amount() uint64    { return o.Tx.Outputs[o.Pos].Amount }
 func (o Out) Asset() bc.AssetID { return *o.Tx.Outputs[o.Pos].AssetId }
-func (o Out) IsVote() bool { return o.Tx.Outputs[o.Pos].OutputType() == types.VoteOutputType }
+func (o Out) IsVote() bool      { return o.Tx.Outputs[o.Pos].OutputType() == types.VoteOutputType }
 
 func muxID(tx *types.Tx, pos int) bc.Hash {
 	switch e := tx.Entries[*tx.ResultIds[pos]].(type) {
@@ -302,12 +312,12 @@ func (w *World) ProposerSlot(parent *BlockInfo, skip int) (uint64, int) {
 }
 
 type BlockOpt struct {
-	Skip          int      // extra time slots to skip
-	RewardProgram []byte   // nil: OP_TRUE
+	Skip          int                  // extra time slots to skip
+	RewardProgram []byte               // nil: OP_TRUE
 	Mutate        func(b *types.Block) // applied before the merkle root and signature are computed
 	MutateAfter   func(b *types.Block) // applied after signing (signature then does not match)
-	BadSigner     bool     // sign with the wrong key
-	CoinbaseOuts  []OutSpec // overrides the coinbase outputs entirely
+	BadSigner     bool                 // sign with the wrong key
+	CoinbaseOuts  []OutSpec            // overrides the coinbase outputs entirely
 }
 
 // NewBlock builds and signs a block on parent containing txs (after the coinbase).
